@@ -44,6 +44,53 @@ def ambiguous(chi, tol, upto):
     return False
 
 
+def near_tie(chi, tol, upto):
+    """A decision of the rule on chi[1..upto] that rounding can flip: chi2 unchanged to 1e-9 relative (is it "<=" ?), or a relative decrease within 1e-9 of tol."""
+    for i in range(1, min(upto, len(chi) - 1) + 1):
+        a, b = chi[i - 1], chi[i]
+        if not (math.isfinite(a) and math.isfinite(b)):
+            continue
+        if abs(a - b) <= 1e-9 * max(abs(a), abs(b), 1e-300):
+            return True
+        rel = (a - b) / (a + EPSF)
+        if abs(rel - tol) <= 1e-9 * max(abs(tol), 1e-300):
+            return True
+    return False
+
+
+def own_sequence_consistent(res, tol, max_iter):
+    """The documented rule replayed on the chi2 values the run reports (initial_chi2, every completed iteration's chi2): returns None if num_iterations,
+    converged, the number of iteration records and final_chi2 are what the rule dictates for exactly these values, else a description."""
+    its = list(res.iteration_results)
+    S = [res.initial_chi2] + [r.chi2 for r in its if r.chi2 is not None]
+    if res.initial_chi2 is None or len(S) < 2:
+        return "fewer than two chi2 values reported"
+    L = len(S) - 1
+
+    def cond(i):
+        prev, cur = float(S[i - 1]), float(S[i])
+        with np.errstate(all="ignore"):
+            rel = (prev - cur) / (prev + EPSF)
+        return bool(cur <= prev and rel < tol)
+    if L > max_iter:
+        return "more iterations reported than max_iter"
+    for i in range(1, L):
+        if cond(i):
+            return "the rule was satisfied after iteration %d but the run went on" % i
+    if L < max_iter:
+        if not cond(L):
+            return "stopped after iteration %d although the rule was not satisfied there" % L
+        if not (bool(res.converged) and res.num_iterations == L and len(its) == L + 1 and its[-1].chi2 is None):
+            return "early stop at %d reported inconsistently" % L
+    else:
+        if not (bool(res.converged) == cond(L) and res.num_iterations == max_iter and len(its) == max_iter):
+            return "max_iter exit reported inconsistently (converged should be %s)" % cond(L)
+    fin, last = res.final_chi2, S[L]
+    if not (fin == last or (fin != fin and last != last)):
+        return "final_chi2 is not the last reported chi2"
+    return None
+
+
 def same_float(a, b, rel=1e-12):
     if a is None or b is None:
         return a is b
@@ -174,13 +221,21 @@ def report_check(ctx, rng, spec, gkind, tol, max_iter, ffp):
         return None
     if amb:
         ctx.count("ambiguous_decision(both continuations accepted)")
+    # (1) exact: the documented rule applied to the chi2 values the run *itself* reports decides where it had to stop and what it had to say.
+    #     No tolerance is involved: same floats, same formula; a 1-ulp difference between two ways of summing chi2 changes the values, not the rule.
+    why_self = own_sequence_consistent(res, tol, max_iter)
+    det_self = {"why": why_self, "reported": {"num_iterations": res.num_iterations, "converged": bool(res.converged), "len_iteration_results": len(res.iteration_results),
+                                               "chi2": [res.initial_chi2] + [r.chi2 for r in res.iteration_results][:8], "final_chi2": res.final_chi2}, "tol": tol, "max_iter": max_iter}
+    if not ctx.check("stopping-rule", why_self is None, dict(feats, basis="the run's own reported chi2 sequence"), det_self, case):
+        return None
+    # (2) the run agrees with the independent single-step trajectory: same stopping point, unless a decision sits within rounding of a tie / of tol
     ok_rule = (res.num_iterations == stop and bool(res.converged) == conv and len(res.iteration_results) == nres)
-    if not ok_rule and amb:
+    if not ok_rule and (amb or near_tie(chi, tol, min(max(stop, res.num_iterations or 0) + 1, max_iter))):
         ctx.skip("stopping decision within rounding of its threshold")
         return None
     det = {"expected": {"num_iterations": stop, "converged": conv, "len_iteration_results": nres}, "reported": {"num_iterations": res.num_iterations, "converged": bool(res.converged),
            "len_iteration_results": len(res.iteration_results)}, "chi2_trace": chi[: stop + 2], "tol": tol, "max_iter": max_iter}
-    ctx.check("stopping-rule", ok_rule, feats, det, case)
+    ctx.check("stopping-rule", ok_rule, dict(feats, basis="independent single-step trajectory"), det, case)
     if not ok_rule:
         return None
     ctx.count("class:early_stop" if stop < max_iter else "class:max_iter_stop")
@@ -191,8 +246,13 @@ def report_check(ctx, rng, spec, gkind, tol, max_iter, ffp):
     for j in range(stop):
         ir = res.iteration_results[j]
         seq_ok = seq_ok and same_float(ir.chi2, chi[j + 1]) and ir.is_complete_iteration()
-        exp_rel = -((chi[j] - chi[j + 1]) / (chi[j] + EPSF))
-        seq_ok = seq_ok and same_float(ir.rel_diff, exp_rel, 1e-9) if ir.rel_diff is not None else False
+        # the reported relative change is the documented formula applied to the run's *own* neighbouring chi2 values (exactly: same floats, same
+        # formula); against the independent trajectory only the chi2 values themselves are compared - near the optimum the relative change is a
+        # difference of nearly equal numbers and two legitimate ways of summing chi2 give unrelated values for it
+        own_prev = float(res.initial_chi2) if j == 0 else float(res.iteration_results[j - 1].chi2)
+        with np.errstate(all="ignore"):
+            exp_rel = -((own_prev - float(ir.chi2)) / (own_prev + EPSF)) if ir.chi2 is not None else None
+        seq_ok = seq_ok and (ir.rel_diff is not None and exp_rel is not None and same_float(float(ir.rel_diff), float(exp_rel), 1e-12))
     if nres == stop + 1:
         seq_ok = seq_ok and not res.iteration_results[-1].is_complete_iteration()
     ctx.check("report-chi2-sequence", seq_ok, feats, {"reported": [res.initial_chi2] + [r.chi2 for r in res.iteration_results] + [res.final_chi2], "trace": chi[: stop + 1]}, case)
@@ -222,10 +282,14 @@ def report_check(ctx, rng, spec, gkind, tol, max_iter, ffp):
     # printed table
     rows = [ln.split() for ln in out.splitlines() if re.match(r"^\s*\d+\s", ln)]
     ok_print = len(rows) == stop + 1
+    # the table shows the values of the report of the run that printed it (res or res3 - identical by the check above), to 4 decimals
+    printer = res if verbose else res3
+    own = [printer.initial_chi2] + [r.chi2 for r in printer.iteration_results if r.chi2 is not None]
+    ok_print = ok_print and len(own) == len(rows)
     if ok_print:
         for j, row in enumerate(rows):
             try:
-                ok_print = ok_print and int(row[0]) == j and (float(row[1]) == float("%.4f" % chi[j]) or (chi[j] != chi[j] and row[1] == "nan"))
+                ok_print = ok_print and int(row[0]) == j and (float(row[1]) == float("%.4f" % own[j]) or (own[j] != own[j] and row[1] == "nan"))
             except ValueError:
                 ok_print = False
     ctx.check("printed-table-matches-report", ok_print, feats, {"rows": rows[:6], "trace": chi[: stop + 1]}, case)
@@ -262,8 +326,19 @@ def report_check(ctx, rng, spec, gkind, tol, max_iter, ffp):
             try:
                 ra = M.quiet_optimize(g2, **kw2)
                 rb = M.quiet_optimize(fresh, **kw2)
-                same = (ra.num_iterations == rb.num_iterations and bool(ra.converged) == bool(rb.converged) and same_float(ra.initial_chi2, rb.initial_chi2) and
-                        same_float(ra.final_chi2, rb.final_chi2) and same_state(M.snapshot_poses(g2), M.snapshot_poses(fresh)))
+                # the fresh graph is rebuilt from the printed numbers through the constructors (which may re-normalise an angle by an ulp): agreement to
+                # 1e-9, chi2 additionally up to its rounding noise at that state; the stopping point only where no decision is a near tie
+                from . import c05
+
+                with np.errstate(all="ignore"):
+                    noise = c05.chi2_noise(fresh) if all(math.isfinite(x) for vv in fresh._vertices for x in M.fl(vv.pose)) else 0.0
+
+                def chi_close(a, b):
+                    return same_float(a, b, 1e-9) or (a is not None and b is not None and math.isfinite(a) and math.isfinite(b) and abs(a - b) <= 4.0 * noise)
+                seq_b = [rb.initial_chi2] + [r.chi2 for r in rb.iteration_results if r.chi2 is not None]
+                tie = near_tie([float(x) for x in seq_b], tol, len(seq_b) - 1) or any(math.isfinite(float(x)) and abs(float(x)) <= 100.0 * noise for x in seq_b)
+                same = ((tie or (ra.num_iterations == rb.num_iterations and bool(ra.converged) == bool(rb.converged))) and chi_close(ra.initial_chi2, rb.initial_chi2) and
+                        (tie or chi_close(ra.final_chi2, rb.final_chi2)) and (tie or same_state(M.snapshot_poses(g2), M.snapshot_poses(fresh), 1e-9)))
                 ctx.check("next-call-after-external-edit-equals-fresh-graph", same, feats, {"continued": [ra.num_iterations, ra.converged, ra.initial_chi2, ra.final_chi2],
                                                                                           "fresh": [rb.num_iterations, rb.converged, rb.initial_chi2, rb.final_chi2]}, case)
             except Exception as ex:
